@@ -337,11 +337,25 @@ def gen_cases(tier, seed):
         "appe_rest_existing": [["connect"], ["login"], ["epsv"], ["cmd", "REST 5"], ["xfer", "APPE", "/f.bin", 3], ["epsv"], ["cmd", "REST 2"],
                                ["xfer", "STOR", "/dir/g.txt", 4], ["quit"]],
     }
+    # PASV and a second data connection while a transfer is running on the first; the second one is never used
+    rest_scripts["pasv_during_transfer"] = [["connect"], ["login"], ["pasv"], ["data"], ["raw", b"RETR /huge.bin\r\n".hex(), "noreply"],
+                                            ["sleep", 0.03], ["cmd", "PASV"], ["data"], ["sleep", 0.03], ["quit"]]
+    rest_scripts["epsv_during_upload"] = [["connect"], ["login"], ["epsv"], ["data"], ["raw", b"STOR /slow-up.bin\r\n".hex(), "noreply"],
+                                          ["sleep", 0.03], ["cmd", "EPSV"], ["data"], ["sleep", 0.03], ["cmd", "PWD"], ["quit"]]
     for name, sc in rest_scripts.items():
         for action in ("rst", "server-close", "fin"):
             for backend in ("memory", "pathio"):
                 cases.append({"kind": "enum", "action": action, "stride": 2 if tier == "quick" else 1, "phase": seed % 2,
                               "plan": {"scripts": [name], "inline": [sc], "seed": seed, "backend": backend}})
+    # ... the same on a server that sends slowly (the running transfer is between two blocks, not stuck in a write, when the
+    # second PASV comes), the session going on for a while afterwards
+    slow = [["connect"], ["login"], ["pasv"], ["data"], ["raw", b"RETR /huge.bin\r\n".hex(), "noreply"], ["sleep", 0.3], ["cmd", "PASV"], ["data"],
+            ["sleep", 1.5], ["raw", b"PWD\r\n".hex(), "noreply"], ["raw", b"QUIT\r\n".hex(), "noreply"], ["sleep", 0.5], ["sleep", 0.5]]
+    # (the peer says QUIT and keeps its sockets open: what the session leaves behind is the server's to close)
+    for action in ("server-close", "rst", "fin"):
+        cases.append({"kind": "enum", "action": action, "stride": (1 if action == "server-close" else 3) if tier == "quick" else 1, "phase": seed % 3 if action != "server-close" else 0,
+                      "plan": {"scripts": ["pasv_during_slow_transfer"], "inline": [slow], "seed": seed,
+                               "server_kwargs": {"write_speed_limit_per_connection": 40000}}})
     # the executor back end, every job of which takes a moment: the session ends (or the server closes) while a thread is busy
     for name in (("retr_pasv", "stor_pasv") if tier == "quick" else ("retr_pasv", "stor_pasv", "appe", "retr_rest", "two_transfers", "mlsd")):
         for action in ("rst", "server-close", "fin"):
